@@ -29,6 +29,7 @@ def run(F, R, ctx):
         registry_rule(F, R)
         stoppers_serialised_rule(F, R)
         no_foreign_lock_across_stop_rule(F, R)
+        protocol_handles_read_only_rule(F, R)
     queue_guard_rule(F, R)
 
 
@@ -554,3 +555,39 @@ def no_foreign_lock_across_stop_rule(F, R):
                                 fn.short(), lib.short_name(g), fn.blocks[site].get("line"), foreign[0][0])),
                fn.loc(fn.blocks[site].get("line")), sample=True)
     R.floor("C16.h", "call sites through which the world is stopped", n, 8)
+
+
+def protocol_handles_read_only_rule(F, R):
+    R.rule("C16.w", "the values the stop-the-world protocol reads are never write-locked by a primitive: every custom type that a "
+                    "Synchronizer method looks into (as_underlying_type::<T> on a registry entry's handle, under the value's read "
+                    "lock) is accessed through the shared accessor only — no call of <T as AsRefMutSteelVal>::as_mut_ref / "
+                    "as_underlying_type_mut::<T> anywhere. thread-join! keeps the read lock of a handle for the whole join; a "
+                    "primitive that asks for the write lock parks behind it, parking_lot then turns new readers away, and the next "
+                    "stop_threads / resume_threads / enumerate_stacks blocks on that handle with the heap lock held")
+    prot = set()
+    for n, fn in F.fns.items():
+        if "{impl Synchronizer}::" not in n:
+            continue
+        for _, b in fn.calls():
+            if re.search(r"rvals::as_underlying_type$", b["callee"]) and b.get("targs"):
+                prot.add(b["targs"][0])
+    R.inst("C16.w", "types read by the stop-the-world protocol derived", bool(prot),
+           "no Synchronizer method looks into a custom value any more (anchor changed)", sample={"types": sorted(prot)}, nontrivial=False)
+    for T in sorted(prot):
+        bad = None
+        for n, fn in sorted(F.fns.items()):
+            if not n.startswith("steel::"):
+                continue
+            for _, b in fn.calls():
+                if re.search(r"AsRefMutSteelVal for T\}::as_mut_ref$|rvals::as_underlying_type_mut$", b["callee"]) and \
+                        (b.get("targs") or [None])[0] == T:
+                    bad = (fn, b)
+                    break
+            if bad:
+                break
+        R.inst("C16.w", "%s is only read-locked" % T, bad is None,
+               bad and ("%s takes the write lock of a %s value (line %s) that the stop-the-world protocol reads: while another thread "
+                        "holds its read lock (thread-join! for the whole join) the writer parks, later readers queue behind it, and "
+                        "stop_threads blocks with the heap lock held — (thread-interrupt t) on a thread that is being joined, then a "
+                        "global definition, then an allocation on t: nothing moves again" % (bad[0].short(), T, bad[1].get("line"))),
+               bad[0].loc(bad[1].get("line")) if bad else "", sample=True)
